@@ -98,7 +98,8 @@ CLAIMED = {
         "a priv key it carried the priv flag and an OCTET STRING payload decrypted under the key localised to the engine id in the "
         "message with the message's boots/time/salt, plaintext never accepted; unauthenticated messages (Reports included) only "
         "raise; under an explicit unforgeability hypothesis the result is an authentic one; tied by structural forgeries run "
-        "through the real message-processing model vs the model (independent HMAC / keystream oracles) and a bit-flipping MITM",
+        "through the real message-processing model vs the model (independent HMAC / keystream oracles), a bit-flipping MITM, and "
+        "mutated wrappers of authentic responses given to the model as raw datagrams (V3Glue: accepted => authentic, same result)",
         "cryptographic strength is a hypothesis (C09_same_result), not a theorem; hangs inside x690 on corrupted input are "
         "attributed to the recorded dependency finding only when the Lean x690 mirror predicts the loop for that datagram",
     ),
@@ -109,7 +110,10 @@ CLAIMED = {
         "structure); authentic responses at the credentials' level are accepted for every length and whatever objects they carry "
         "(only Report-PDUs are searched for usmStats error objects: guard generated from validate_usm_message); the MAC input "
         "is located in the octets as received: reset_raw_digest over the x690 mirror zeroes exactly a 12-octet digest field of "
-        "EVERY datagram of the SNMPv3 shape, any length forms (C10_raw_digest_window, C10_accepts_wire; unit correspondence); expansion buffer has n octets "
+        "EVERY datagram of the SNMPv3 shape, any length forms (C10_raw_digest_window, C10_accepts_wire; unit correspondence); "
+        "the glue Message.decode / USMSecurityParameters.decode over the mirror reads the fields as written from every well-formed "
+        "message (C10_fields_from_wire) and the whole incoming path composes from the octets on (C10_accepts_datagram; suite "
+        "wire-incoming: the model is given the datagram only); expansion buffer has n octets "
         "with octet i = password[i mod |password|] for every non-empty password; localisation buffer Ku ++ engineId ++ Ku; tied "
         "by the reference RFC 3414 agent accepting every generated request, independent HMAC over the wire bytes, byte-exact "
         "comparison with the model, authentic responses sweeping all lengths 100..300, recording-hash key derivation",
@@ -179,7 +183,8 @@ CLAIMED = {
         "a priv key it carried the priv flag and an OCTET STRING payload decrypted under the key localised to the engine id in the "
         "message with the message's boots/time/salt, plaintext never accepted; unauthenticated messages (Reports included) only "
         "raise; under an explicit unforgeability hypothesis the result is an authentic one; tied by structural forgeries run "
-        "through the real message-processing model vs the model (independent HMAC / keystream oracles) and a bit-flipping MITM",
+        "through the real message-processing model vs the model (independent HMAC / keystream oracles), a bit-flipping MITM, and "
+        "mutated wrappers of authentic responses given to the model as raw datagrams (V3Glue: accepted => authentic, same result)",
         "cryptographic strength is a hypothesis (C09_same_result), not a theorem; hangs inside x690 on corrupted input are "
         "attributed to the recorded dependency finding only when the Lean x690 mirror predicts the loop for that datagram",
     ),
@@ -190,7 +195,10 @@ CLAIMED = {
         "structure); authentic responses at the credentials' level are accepted for every length and whatever objects they carry "
         "(only Report-PDUs are searched for usmStats error objects: guard generated from validate_usm_message); the MAC input "
         "is located in the octets as received: reset_raw_digest over the x690 mirror zeroes exactly a 12-octet digest field of "
-        "EVERY datagram of the SNMPv3 shape, any length forms (C10_raw_digest_window, C10_accepts_wire; unit correspondence); expansion buffer has n octets "
+        "EVERY datagram of the SNMPv3 shape, any length forms (C10_raw_digest_window, C10_accepts_wire; unit correspondence); "
+        "the glue Message.decode / USMSecurityParameters.decode over the mirror reads the fields as written from every well-formed "
+        "message (C10_fields_from_wire) and the whole incoming path composes from the octets on (C10_accepts_datagram; suite "
+        "wire-incoming: the model is given the datagram only); expansion buffer has n octets "
         "with octet i = password[i mod |password|] for every non-empty password; localisation buffer Ku ++ engineId ++ Ku; tied "
         "by the reference RFC 3414 agent accepting every generated request, independent HMAC over the wire bytes, byte-exact "
         "comparison with the model, authentic responses sweeping all lengths 100..300, recording-hash key derivation",
